@@ -72,6 +72,7 @@ func zzFitsUnsigned(v uint64, w int) bool {
 func zzLeaf(kind, n int, pfx string) (item ast.ItemNode, payload []byte) {
 	w := zzWidth[kind]
 	vals := make([]interface{}, n)
+	zzLastVals = vals
 	payload = make([]byte, 0, n*w)
 	be := func(u uint64) {
 		for j := w - 1; j >= 0; j-- {
@@ -99,6 +100,7 @@ func zzLeaf(kind, n int, pfx string) (item ast.ItemNode, payload []byte) {
 			rt.Assume(s[i] < 0x80)
 			payload = append(payload, s[i])
 		}
+		zzLastVals = []interface{}{s}
 		return ast.NewASCIINode(s), payload
 	case zzI1, zzI2, zzI4, zzI8:
 		for i := range vals {
@@ -134,6 +136,48 @@ func zzLeaf(kind, n int, pfx string) (item ast.ItemNode, payload []byte) {
 		return ast.NewFloatNode(4, vals...), payload
 	}
 	panic("zzLeaf: bad kind")
+}
+
+// zzLastVals holds the element values of the leaf zzLeaf built last (for ASCII: the string).
+var zzLastVals []interface{}
+
+// zzLeafTemplate is a leaf of the given format whose n elements are all variables p0..pn-1
+// (ASCII: one unbounded variable p0), with the map that fills them with vals and a map that
+// fills them with zeros.
+func zzLeafTemplate(kind, n int, vals []interface{}) (tmpl ast.ItemNode, fill, zeros map[string]interface{}) {
+	fill, zeros = map[string]interface{}{}, map[string]interface{}{}
+	if kind == zzASCII {
+		fill["p0"], zeros["p0"] = vals[0], ""
+		return ast.NewASCIINodeVariable("p0", 0, -1), fill, zeros
+	}
+	names := make([]interface{}, n)
+	for i := range names {
+		nm := rt.N("p", i)
+		names[i] = nm
+		fill[nm] = vals[i]
+		switch kind {
+		case zzBoolean:
+			zeros[nm] = false
+		case zzF4, zzF8:
+			zeros[nm] = 0.0
+		default:
+			zeros[nm] = 0
+		}
+	}
+	w := zzWidth[kind]
+	switch kind {
+	case zzBinary:
+		tmpl = ast.NewBinaryNode(names...)
+	case zzBoolean:
+		tmpl = ast.NewBooleanNode(names...)
+	case zzI1, zzI2, zzI4, zzI8:
+		tmpl = ast.NewIntNode(w, names...)
+	case zzU1, zzU2, zzU4, zzU8:
+		tmpl = ast.NewUintNode(w, names...)
+	default:
+		tmpl = ast.NewFloatNode(w, names...)
+	}
+	return
 }
 
 // zzLeafEnc is the full E5 encoding of a leaf.
